@@ -247,6 +247,8 @@ def Holds (E : Nat → SigMap) (nodes : Array CNode) (env : Env) (bind : Nat →
   match bind n with
   | some (.ent e s) => get (E e) s = nodeVal nodes env n
   | some (.konst k) => nodeVal nodes env n = k
+  | some (.sum es s) => get (Circuit.sumOuts es E) s = nodeVal nodes env n
+  | some (.many es) => ∀ s, get (Circuit.sumOuts es E) s = get ((evalNodes nodes env).getD n []) s
   | none => True
 
 /-- the two valuations agree: the constant combinator bound to an input node carries that input's value,
@@ -339,6 +341,76 @@ theorem soleProducer_isolated (c : Circuit) (i : Nat) (sel : Sel) (s : Sig) (p :
     simp
   · cases h
 
+/-! ## wire sums over sets of producers -/
+
+theorem get_sumOuts_cons (p : Nat) (ps : List Nat) (E : Nat → SigMap) (s : Sig) :
+    get (Circuit.sumOuts (p :: ps) E) s = get (E p) s + get (Circuit.sumOuts ps E) s := by
+  simp [Circuit.sumOuts]
+
+theorem get_sumOuts_append (a b : List Nat) (E : Nat → SigMap) (s : Sig) :
+    get (Circuit.sumOuts (a ++ b) E) s = get (Circuit.sumOuts a E) s + get (Circuit.sumOuts b E) s := by
+  simp [Circuit.sumOuts]
+
+theorem get_sumOuts_perm (E : Nat → SigMap) (s : Sig) {l1 l2 : List Nat} (h : l1.Perm l2) :
+    get (Circuit.sumOuts l1 E) s = get (Circuit.sumOuts l2 E) s := by
+  induction h with
+  | nil => rfl
+  | cons x _ ih => simp only [get_sumOuts_cons, ih]
+  | swap x y l =>
+    simp only [get_sumOuts_cons]
+    rw [← BitVec.add_assoc, ← BitVec.add_assoc, BitVec.add_comm (get (E y) s)]
+  | trans _ _ ih1 ih2 => rw [ih1, ih2]
+
+theorem get_sumOuts_filter (E : Nat → SigMap) (s : Sig) (keep : Nat → Bool) (ps : List Nat)
+    (hz : ∀ p, keep p = false → get (E p) s = 0) :
+    get (Circuit.sumOuts (ps.filter keep) E) s = get (Circuit.sumOuts ps E) s := by
+  induction ps with
+  | nil => rfl
+  | cons p ps ih =>
+    by_cases hk : keep p = true
+    · rw [List.filter_cons_of_pos hk]
+      simp only [get_sumOuts_cons, ih]
+    · have hk' : keep p = false := by simpa using hk
+      rw [List.filter_cons_of_neg (by simp [hk'])]
+      simp only [get_sumOuts_cons, ih, hz p hk']
+      simp
+
+theorem silent_zero (c : Circuit) (E : Nat → SigMap) (hE : EmitsOK c E) (p : Nat) (s : Sig)
+    (h : (!(c.kind p).silent) = false) : get (E p) s = 0 := by
+  apply hE
+  have hs : (c.kind p).silent = true := by simpa using h
+  unfold Kind.silent at hs
+  unfold Kind.mayEmitB
+  split at hs
+  · rename_i heq
+    rw [heq]
+    simp
+  · cases hs
+
+/-- a selection that carries `es` reads, on every signal, the wire-sum of `es` -/
+theorem carries_sound (c : Circuit) (E : Nat → SigMap) (hE : EmitsOK c E) (i : Nat) (sel : Sel) (es : List Nat)
+    (h : c.carries i sel es = true) (s : Sig) :
+    get (selIn sel (c.readR E i) (c.readG E i)) s = get (Circuit.sumOuts es E) s := by
+  unfold Circuit.carries at h
+  have hp := List.isPerm_iff.mp h
+  rw [selIn_eq_sumOuts,
+    ← get_sumOuts_filter E s (fun p => !(c.kind p).silent) (c.selProducers i sel) (fun p hp => silent_zero c E hE p s hp),
+    ← get_sumOuts_filter E s (fun p => !(c.kind p).silent) es (fun p hp => silent_zero c E hE p s hp)]
+  exact get_sumOuts_perm E s hp
+
+theorem readsSum_sound (c : Circuit) (E : Nat → SigMap) (hE : EmitsOK c E) (i : Nat) (sel : Sel) (s : Sig) (es : List Nat)
+    (h : c.readsSum i sel s es = true) :
+    get (selIn sel (c.readR E i) (c.readG E i)) s = get (Circuit.sumOuts es E) s := by
+  unfold Circuit.readsSum at h
+  have hp := List.isPerm_iff.mp h
+  rw [selIn_eq_sumOuts,
+    ← get_sumOuts_filter E s (fun p => (c.kind p).mayEmitB s) (c.selProducers i sel) (fun p hp => hE p s hp),
+    ← get_sumOuts_filter E s (fun p => (c.kind p).mayEmitB s) es (fun p hp => hE p s hp)]
+  exact get_sumOuts_perm E s hp
+
+theorem get_sumOuts_single (E : Nat → SigMap) (e : Nat) (s : Sig) : get (Circuit.sumOuts [e] E) s = get (E e) s := by
+  simp [Circuit.sumOuts]
+
 theorem matchOperand_sound (x : Ctx) (i : Nat) (o : Operand) (a : Arg) (n : Nat)
     (hbelow : argBelow n a = true) (ih : ∀ m, m < n → Holds x.E x.nodes x.env x.bind m)
     (h : matchOperand x.c x.nodes x.bind i o a = true) :
@@ -390,6 +462,17 @@ theorem matchOperand_sound (x : Ctx) (i : Nat) (o : Operand) (a : Arg) (n : Nat)
         | some b =>
           cases b with
           | konst k => simp [hb] at h
+          | many es => simp [hb] at h
+          | sum es s' =>
+            simp only [hb, Bool.and_eq_true, beq_iff_eq] at h
+            obtain ⟨hs, hrd⟩ := h
+            subst hs
+            have := ih m hm
+            unfold Holds at this
+            rw [hb] at this
+            simp only [Operand.val]
+            rw [readsSum_sound x.c x.E x.emits i sel s es hrd]
+            exact this
           | ent e s' =>
             simp only [hb, Bool.and_eq_true, beq_iff_eq] at h
             obtain ⟨hs, hiso⟩ := h
@@ -403,12 +486,6 @@ theorem matchOperand_sound (x : Ctx) (i : Nat) (o : Operand) (a : Arg) (n : Nat)
     | each => cases a <;> simp [matchOperand] at h
     | anything => cases a <;> simp [matchOperand] at h
     | everything => cases a <;> simp [matchOperand] at h
-
-/-- operands the matcher accepts are plain: a constant or one named signal -/
-def Operand.isPlain : Operand → Bool
-  | .const _ => true
-  | .ref (.sig _) _ => true
-  | _ => false
 
 theorem matchOperand_plain (c : Circuit) (nodes : Array CNode) (bind : Nat → Option Bind) (i : Nat) (o : Operand) (a : Arg)
     (h : matchOperand c nodes bind i o a = true) : o.isPlain = true := by
@@ -606,6 +683,41 @@ theorem outs_shape (outs : List DOut) (P : DOut → Bool)
   | [], h => simp at h
   | _ :: _ :: _, h => simp at h
 
+/-- the output row of a gating decider carries the value of `w` -/
+theorem outValIs_sound (x : Ctx) (n : Nat) (ih : ∀ m, m < n → Holds x.E x.nodes x.env x.bind m)
+    (e : Nat) (o : DOut) (s : Sig) (w : Arg) (huw : argBelow n w = true)
+    (hv : outValIs x.c x.bind e o s w = true) :
+    (if o.copy then get (selIn o.sel (x.c.readR x.E e) (x.c.readG x.E e)) s else o.const) = x.av w := by
+  unfold outValIs at hv
+  cases w with
+  | int k =>
+    simp only [Bool.and_eq_true, Bool.not_eq_true', beq_iff_eq] at hv
+    simp [hv.1, hv.2, Ctx.av, argVal]
+  | node m =>
+    have hm : m < n := by simpa [argBelow] using huw
+    have hh := ih m hm
+    unfold Holds at hh
+    simp only at hv
+    cases hb : x.bind m with
+    | none => simp [hb] at hv
+    | some b =>
+      cases b with
+      | konst k =>
+        rw [hb] at hh
+        simp only [hb, Bool.and_eq_true, Bool.not_eq_true', beq_iff_eq] at hv
+        simp only [hv.1, Bool.false_eq_true, if_false, hv.2]
+        exact hh.symm
+      | ent ev sv =>
+        rw [hb] at hh
+        simp only [hb, Bool.and_eq_true, beq_iff_eq] at hv
+        obtain ⟨⟨hcopy, hsv⟩, hiso⟩ := hv
+        subst hsv
+        simp only [hcopy, if_true]
+        rw [read_isolated x.c x.E x.emits e o.sel sv ev hiso]
+        exact hh
+      | sum es s' => simp [hb] at hv
+      | many es => simp [hb] at hv
+
 /-! ## an entity computes a value expression -/
 
 theorem entIs_sound (x : Ctx) (n : Nat) (ih : ∀ m, m < n → Holds x.E x.nodes x.env x.bind m) :
@@ -661,33 +773,7 @@ theorem entIs_sound (x : Ctx) (n : Nat) (ih : ∀ m, m < n → Holds x.E x.nodes
       obtain ⟨⟨⟨⟨⟨hu', hop⟩, h1⟩, h2⟩, hsig⟩, hv⟩ := hP
       have hsig' := dout_sig_eq _ _ hsig
       have hcfg : cfg = { conds := [cd], outs := [o] } := by cases cfg; simp_all
-      have hval : (if o.copy then get (selIn o.sel (x.c.readR x.E e) (x.c.readG x.E e)) s else o.const) = x.av w := by
-        cases w with
-        | int k =>
-          simp only [Bool.and_eq_true, Bool.not_eq_true', beq_iff_eq] at hv
-          simp [hv.1, hv.2, Ctx.av, argVal]
-        | node m =>
-          have hm : m < n := by simpa [argBelow] using huw
-          have hh := ih m hm
-          unfold Holds at hh
-          simp only at hv
-          cases hb : x.bind m with
-          | none => simp [hb] at hv
-          | some b =>
-            cases b with
-            | konst k =>
-              rw [hb] at hh
-              simp only [hb, Bool.and_eq_true, Bool.not_eq_true', beq_iff_eq] at hv
-              simp only [hv.1, Bool.false_eq_true, if_false, hv.2]
-              exact hh.symm
-            | ent ev sv =>
-              rw [hb] at hh
-              simp only [hb, Bool.and_eq_true, beq_iff_eq] at hv
-              obtain ⟨⟨hcopy, hsv⟩, hiso⟩ := hv
-              subst hsv
-              simp only [hcopy, if_true]
-              rw [read_isolated x.c x.E x.emits e o.sel sv ev hiso]
-              exact hh
+      have hval := outValIs_sound x n ih e o s w huw hv
       rw [x.out_eq e (x.inp_none_of_decider e cfg hk), hk, hcfg]
       show get (evalDecider _ _ _) s = _
       rw [get_evalDecider_single cd o s hu' hsig', cond_eval_plain cd _ _ (opIs_plain _ _ _ _ _ _ _ h1) hu',
@@ -1059,6 +1145,554 @@ theorem lowerings_sound (nodes : Array CNode) (env : Env) :
             simp only [VExpr.val, this]
       | _ => rw [hk] at h; simp at h
 
+/-! ## nodes without a combinator of their own: selections and additions folded into the wires -/
+
+theorem nodeVal_select (nodes : Array CNode) (env : Env) (n : Nat) (hn : n < nodes.size) (b : Nat) (ty : Sig)
+    (hnd : nodes[n] = .select b ty) (hb : b < n) :
+    nodeVal nodes env n = get ((evalNodes nodes env).getD b []) ty := by
+  rw [nodeVal_eq nodes env n hn ty (by rw [hnd]; rfl), hnd]
+  simp [evalNode, evalUpTo_prefix nodes env n b hb (by omega)]
+
+theorem scalarEnts_sound (x : Ctx) (n : Nat) (ih : ∀ m, m < n → Holds x.E x.nodes x.env x.bind m)
+    (s : Sig) (a : Arg) (es : List Nat) (ha : argBelow n a = true) (h : scalarEnts x.bind s a = some es) :
+    get (Circuit.sumOuts es x.E) s = x.av a := by
+  unfold scalarEnts at h
+  cases a with
+  | int k => simp at h
+  | node m =>
+    have hm : m < n := by simpa [argBelow] using ha
+    have hh := ih m hm
+    unfold Holds at hh
+    simp only at h
+    cases hb : x.bind m with
+    | none => simp [hb] at h
+    | some b =>
+      rw [hb] at hh h
+      cases b with
+      | konst k => simp at h
+      | many es' => simp at h
+      | ent e s' =>
+        simp only at h
+        split at h
+        · rename_i hs
+          have hs : s' = s := by simpa using hs
+          subst hs
+          injection h with h
+          subst h
+          rw [get_sumOuts_single]
+          exact hh
+        · cases h
+      | sum es' s' =>
+        simp only at h
+        split at h
+        · rename_i hs
+          have hs : s' = s := by simpa using hs
+          subst hs
+          injection h with h
+          subst h
+          exact hh
+        · cases h
+
+theorem checkSum_sound (x : Ctx) (n : Nat) (hn : n < x.nodes.size) (es : List Nat) (s : Sig)
+    (hbind : x.bind n = some (.sum es s))
+    (ih : ∀ m, m < n → Holds x.E x.nodes x.env x.bind m)
+    (h : checkSum x.bind n x.nodes[n] es s = true) : Holds x.E x.nodes x.env x.bind n := by
+  unfold Holds
+  rw [hbind]
+  show get (Circuit.sumOuts es x.E) s = nodeVal x.nodes x.env n
+  unfold checkSum at h
+  cases hk : x.nodes[n] with
+  | select b ty =>
+    rw [hk] at h
+    simp only [Bool.and_eq_true, decide_eq_true_eq, beq_iff_eq] at h
+    obtain ⟨⟨hb, hty⟩, hm⟩ := h
+    subst hty
+    have hh := ih b hb
+    unfold Holds at hh
+    cases hbb : x.bind b with
+    | none => simp [hbb] at hm
+    | some bb =>
+      rw [hbb] at hm hh
+      cases bb with
+      | many eb =>
+        have : es = eb := by simpa using hm
+        subst this
+        rw [nodeVal_select x.nodes x.env n hn b ty hk hb]
+        exact hh ty
+      | _ => simp at hm
+  | arith op a b ty =>
+    rw [hk] at h
+    cases op with
+    | add =>
+      simp only [Bool.and_eq_true] at h
+      obtain ⟨⟨ha, hb⟩, hm⟩ := h
+      cases h1 : scalarEnts x.bind s a with
+      | none => simp [h1] at hm
+      | some ea =>
+        cases h2 : scalarEnts x.bind s b with
+        | none => simp [h1, h2] at hm
+        | some eb =>
+          simp only [h1, h2, beq_iff_eq] at hm
+          subst hm
+          rw [get_sumOuts_append, scalarEnts_sound x n ih s a ea ha h1, scalarEnts_sound x n ih s b eb hb h2,
+            nodeVal_arith x.nodes x.env n hn .add a b ty hk ha hb]
+          rfl
+    | _ => simp at h
+  | _ => rw [hk] at h; simp at h
+
+/-! ## `any(b)` / `all(b)` comparisons -/
+
+theorem any_support_congr (m1 m2 : SigMap) (h : ∀ s, get m1 s = get m2 s) (P : I32 → Bool) :
+    (support m1).any (fun s => P (get m1 s)) = (support m2).any (fun s => P (get m2 s)) := by
+  apply Bool.eq_iff_iff.mpr
+  simp only [List.any_eq_true, mem_support]
+  constructor
+  · rintro ⟨s, hs, hp⟩
+    exact ⟨s, by rwa [← h s], by rwa [← h s]⟩
+  · rintro ⟨s, hs, hp⟩
+    exact ⟨s, by rwa [h s], by rwa [h s]⟩
+
+theorem all_support_congr (m1 m2 : SigMap) (h : ∀ s, get m1 s = get m2 s) (P : I32 → Bool) :
+    (support m1).all (fun s => P (get m1 s)) = (support m2).all (fun s => P (get m2 s)) := by
+  apply Bool.eq_iff_iff.mpr
+  simp only [List.all_eq_true, mem_support]
+  constructor
+  · intro hh s hs
+    have := hh s (by rwa [h s])
+    rwa [← h s]
+  · intro hh s hs
+    have := hh s (by rwa [← h s])
+    rwa [h s]
+
+theorem rhs_plain (cd : Cond) (r g : SigMap) (k : Option Sig) (hp : cd.second.isPlain = true) :
+    cd.rhs r g k = cd.second.val r g := by
+  unfold Cond.rhs
+  cases hs : cd.second with
+  | const v => cases k <;> simp
+  | ref rf sel =>
+    cases rf with
+    | sig t => cases k <;> simp
+    | each => simp_all [Operand.isPlain]
+    | anything => simp_all [Operand.isPlain]
+    | everything => simp_all [Operand.isPlain]
+
+theorem plain_not_each (o : Operand) (hp : o.isPlain = true) : o.isEach = false := by
+  cases o with
+  | const v => rfl
+  | ref rf sel => cases rf <;> simp_all [Operand.isPlain, Operand.isEach]
+
+/-- the quantified value `any`/`all` compute over a bundle -/
+def quantVal (isAny : Bool) (m : SigMap) (op : CmpOp) (k : I32) : Bool :=
+  if isAny then (support m).any (fun t => cmp op (get m t) k) else (support m).all (fun t => cmp op (get m t) k)
+
+theorem checkQuant_core (x : Ctx) (n : Nat) (ih : ∀ m, m < n → Holds x.E x.nodes x.env x.bind m)
+    (isAny : Bool) (b : Nat) (op : CmpOp) (rhs : Arg) (out : Option Arg) (e : Nat) (s : Sig)
+    (h : checkQuant x.c x.nodes x.bind n isAny b op rhs out e s = true) :
+    b < n ∧ argBelow n rhs = true ∧ (∀ o, out = some o → argBelow n o = true) ∧
+    get (x.E e) s =
+      (if quantVal isAny ((evalNodes x.nodes x.env).getD b []) op (x.av rhs)
+       then x.av (out.getD (.int 1)) else 0) := by
+  unfold checkQuant at h
+  simp only [Bool.and_eq_true, decide_eq_true_eq] at h
+  obtain ⟨⟨⟨hb, hrhs⟩, hout⟩, hm⟩ := h
+  have hout' : ∀ o, out = some o → argBelow n o = true := by
+    intro o ho; subst ho; simpa using hout
+  refine ⟨hb, hrhs, hout', ?_⟩
+  cases hk : x.c.kind e with
+  | decider cfg =>
+    rw [hk] at hm
+    cases hbb : x.bind b with
+    | none => simp [hbb] at hm
+    | some bb =>
+      cases bb with
+      | many eb =>
+        simp only [hbb] at hm
+        obtain ⟨cd, o, hcs, hos, hP⟩ := decider_shape cfg.conds cfg.outs _ hm
+        simp only [Bool.and_eq_true, beq_iff_eq] at hP
+        obtain ⟨⟨⟨⟨⟨hfirst, hop⟩, hplain⟩, hmo⟩, hsig⟩, hov⟩ := hP
+        have hsig' := dout_sig_eq _ _ hsig
+        have hcfg : cfg = { conds := [cd], outs := [o] } := by cases cfg; simp_all
+        have hhb := ih b hb
+        unfold Holds at hhb
+        rw [hbb] at hhb
+        have hw : argBelow n (out.getD (.int 1)) = true := by
+          cases out with
+          | none => rfl
+          | some v => exact hout' v rfl
+        have hval := outValIs_sound x n ih e o s _ hw hov
+        have hsec := matchOperand_sound x e cd.second rhs n hrhs ih hmo
+        have hne : cd.second.isEach = false := plain_not_each _ hplain
+        rw [x.out_eq e (x.inp_none_of_decider e cfg hk), hk, hcfg]
+        show get (evalDecider _ _ _) s = _
+        cases hf : cd.first with
+        | const v => rw [hf] at hfirst; simp at hfirst
+        | ref rf sel =>
+          rw [hf] at hfirst
+          have hue : cd.usesEach = false := by
+            unfold Cond.usesEach
+            rw [hf, hne]
+            cases rf <;> simp_all [Operand.isEach]
+          rw [get_evalDecider_single cd o s hue hsig', if_pos rfl, hval]
+          cases rf with
+          | sig t => simp at hfirst
+          | each => simp at hfirst
+          | anything =>
+            simp only [Bool.and_eq_true] at hfirst
+            obtain ⟨hany, hcar⟩ := hfirst
+            subst hany
+            have hin := fun t => (carries_sound x.c x.E x.emits e sel eb hcar t).trans (hhb t)
+            have : cd.eval (x.c.readR x.E e) (x.c.readG x.E e) none =
+                quantVal true ((evalNodes x.nodes x.env).getD b []) op (x.av rhs) := by
+              unfold Cond.eval quantVal
+              rw [hf, rhs_plain cd _ _ _ hplain, hsec, hop]
+              simp only [if_true]
+              exact any_support_congr _ _ hin (fun v => cmp op v (x.av rhs))
+            rw [this]
+          | everything =>
+            simp only [Bool.and_eq_true, Bool.not_eq_true'] at hfirst
+            obtain ⟨hany, hcar⟩ := hfirst
+            subst hany
+            have hin := fun t => (carries_sound x.c x.E x.emits e sel eb hcar t).trans (hhb t)
+            have : cd.eval (x.c.readR x.E e) (x.c.readG x.E e) none =
+                quantVal false ((evalNodes x.nodes x.env).getD b []) op (x.av rhs) := by
+              unfold Cond.eval quantVal
+              rw [hf, rhs_plain cd _ _ _ hplain, hsec, hop]
+              simp only [Bool.false_eq_true, if_false]
+              exact all_support_congr _ _ hin (fun v => cmp op v (x.av rhs))
+            rw [this]
+      | _ => simp [hbb] at hm
+  | _ => rw [hk] at hm; simp at hm
+
+theorem sound_anyCmp (x : Ctx) (n e : Nat) (s : Sig) (hn : n < x.nodes.size) (b : Nat) (op : CmpOp) (rhs : Arg)
+    (out : Option Arg) (ty : Sig) (hk : x.nodes[n] = .anyCmp b op rhs out ty)
+    (hbind : x.bind n = some (.ent e s)) (ih : ∀ m, m < n → Holds x.E x.nodes x.env x.bind m)
+    (h : checkQuant x.c x.nodes x.bind n true b op rhs out e s = true) : Holds x.E x.nodes x.env x.bind n := by
+  unfold Holds
+  rw [hbind]
+  show get (x.E e) s = nodeVal x.nodes x.env n
+  obtain ⟨hb, hrhs, hout, hval⟩ := checkQuant_core x n ih true b op rhs out e s h
+  rw [hval, nodeVal_eq x.nodes x.env n hn ty (by rw [hk]; rfl), hk]
+  simp only [evalNode, get_single, if_pos rfl, quantVal, if_true, Ctx.av,
+    evalUpTo_prefix x.nodes x.env n b hb (by omega), argVal_prefix x.nodes x.env n (by omega) rhs hrhs]
+  cases out with
+  | none => simp [argVal]
+  | some o => simp [argVal_prefix x.nodes x.env n (by omega) o (hout o rfl)]
+
+theorem sound_allCmp (x : Ctx) (n e : Nat) (s : Sig) (hn : n < x.nodes.size) (b : Nat) (op : CmpOp) (rhs : Arg)
+    (out : Option Arg) (ty : Sig) (hk : x.nodes[n] = .allCmp b op rhs out ty)
+    (hbind : x.bind n = some (.ent e s)) (ih : ∀ m, m < n → Holds x.E x.nodes x.env x.bind m)
+    (h : checkQuant x.c x.nodes x.bind n false b op rhs out e s = true) : Holds x.E x.nodes x.env x.bind n := by
+  unfold Holds
+  rw [hbind]
+  show get (x.E e) s = nodeVal x.nodes x.env n
+  obtain ⟨hb, hrhs, hout, hval⟩ := checkQuant_core x n ih false b op rhs out e s h
+  rw [hval, nodeVal_eq x.nodes x.env n hn ty (by rw [hk]; rfl), hk]
+  simp only [evalNode, get_single, if_pos rfl, quantVal, Bool.false_eq_true, if_false, Ctx.av,
+    evalUpTo_prefix x.nodes x.env n b hb (by omega), argVal_prefix x.nodes x.env n (by omega) rhs hrhs]
+  cases out with
+  | none => simp [argVal]
+  | some o => simp [argVal_prefix x.nodes x.env n (by omega) o (hout o rfl)]
+
+/-! ## bundle nodes -/
+
+theorem get_flatten_cond_nodup (l : List Sig) (hl : l.Nodup) (p : Sig → Bool) (f : Sig → I32) (s : Sig) :
+    get ((l.map (fun k => if p k then [(k, f k)] else [])).flatten) s = if s ∈ l ∧ p s = true then f s else 0 := by
+  induction l with
+  | nil => simp
+  | cons k l ih =>
+    rw [List.nodup_cons] at hl
+    simp only [List.map_cons, List.flatten_cons, get_append, ih hl.2, List.mem_cons]
+    by_cases hks : k = s
+    · subst hks
+      by_cases hp : p k = true
+      · simp [hp, hl.1]
+      · simp [hp]
+    · have : ¬ s = k := fun e => hks e.symm
+      by_cases hp : p k = true
+      · simp [hp, hks, this]
+      · simp [hp, this]
+
+/-- one `each` row with a plain right-hand side and one `each` output -/
+theorem get_evalDecider_each1 (cd : Cond) (o : DOut) (sel : Sel) (hf : cd.first = .ref .each sel)
+    (hp : cd.second.isPlain = true) (ho : o.sig = .each) (r g : SigMap) (s : Sig) :
+    get (evalDecider { conds := [cd], outs := [o] } r g) s =
+      if get (selIn sel r g) s ≠ 0 ∧ cmp cd.op (get (selIn sel r g) s) (cd.second.val r g) = true
+      then (if o.copy then get (selIn o.sel r g) s else o.const) else 0 := by
+  have hne := plain_not_each _ hp
+  have hany : List.any [cd] Cond.usesEach = true := by simp [Cond.usesEach, hf, Operand.isEach]
+  have hsels : cd.eachSels = [sel] := by
+    unfold Cond.eachSels
+    rw [hf]
+    cases hs : cd.second with
+    | const v => rfl
+    | ref rf sl => cases rf <;> simp_all [Operand.isPlain]
+  unfold evalDecider
+  simp only [hany, if_true]
+  have hdom : eachDomain [cd] r g = dedup (support (selIn sel r g)) := by
+    simp [eachDomain, hsels]
+  rw [hdom]
+  have hbody : ∀ k, (if evalConds [cd] r g (some k) = true then (List.map (fun o => o.emit r g (some k)) [o]).flatten else []) =
+      (if cmp cd.op (get (selIn sel r g) k) (cd.second.val r g) = true
+       then [(k, if o.copy then get (selIn o.sel r g) k else o.const)] else []) := by
+    intro k
+    have he : evalConds [cd] r g (some k) = cmp cd.op (get (selIn sel r g) k) (cd.second.val r g) := by
+      simp only [evalConds, evalConds.go, Cond.eval, hf, rhs_plain cd r g (some k) hp]
+    rw [he]
+    simp [DOut.emit, ho]
+  simp only [hbody]
+  rw [get_flatten_cond_nodup _ (nodup_dedup _)]
+  simp only [mem_dedup, mem_support]
+
+theorem get_evalNode_bfilter (nodes : Array CNode) (env : Env) (vals : Array SigMap) (op : CmpOp) (b : Nat) (k : Arg)
+    (out : Option I32) (s : Sig) :
+    get (evalNode nodes env vals (.bfilter op b k out)) s =
+      if get (vals.getD b []) s ≠ 0 ∧ cmp op (get (vals.getD b []) s) (argVal nodes vals k) = true
+      then (match out with | none => get (vals.getD b []) s | some c => c) else 0 := by
+  simp only [evalNode]
+  exact get_map_filter_support (vals.getD b []) (fun x => cmp op (get (vals.getD b []) x) (argVal nodes vals k))
+    (fun x => match out with | none => get (vals.getD b []) x | some c => c) s
+
+theorem evalNode_scalar_shape (nodes : Array CNode) (env : Env) (vals : Array SigMap) (nd : CNode) (ty : Sig)
+    (h : nd.ty? = some ty) : ∃ w, evalNode nodes env vals nd = [(ty, w)] := by
+  cases nd <;> simp [CNode.ty?] at h <;> subst h <;> exact ⟨_, rfl⟩
+
+theorem partEnts_sound (x : Ctx) (n p : Nat) (hp : p < n) (hn : n ≤ x.nodes.size)
+    (ih : ∀ m, m < n → Holds x.E x.nodes x.env x.bind m) (a : List Nat)
+    (h : partEnts x.c x.nodes x.bind p = some a) (s : Sig) :
+    get (Circuit.sumOuts a x.E) s = get ((evalNodes x.nodes x.env).getD p []) s := by
+  have hps : p < x.nodes.size := by omega
+  have hnd : x.nodes[p]? = some x.nodes[p] := Array.getElem?_eq_getElem hps
+  have hh := ih p hp
+  unfold Holds at hh
+  unfold partEnts at h
+  cases hb : x.bind p with
+  | none => simp [hb] at h
+  | some bb =>
+    rw [hb] at h hh
+    cases bb with
+    | konst k => simp at h
+    | sum es s' => simp at h
+    | many es =>
+      simp only [hnd] at h
+      split at h
+      · injection h with h
+        subst h
+        exact hh s
+      · cases h
+    | ent e s0 =>
+      simp only [hnd] at h
+      by_cases hc : (x.nodes[p].ty? == some s0 && (x.c.kind e).emitsOnly s0) = true
+      · rw [if_pos hc] at h
+        injection h with h
+        subst h
+        simp only [Bool.and_eq_true, beq_iff_eq] at hc
+        obtain ⟨hty, hemit⟩ := hc
+        obtain ⟨w, hw⟩ := evalNode_scalar_shape x.nodes x.env (evalUpTo x.nodes x.env p) x.nodes[p] s0 hty
+        have hv : (evalNodes x.nodes x.env).getD p [] = [(s0, w)] := by
+          rw [evalNodes_getD x.nodes x.env p hps, hw]
+        have hnv : nodeVal x.nodes x.env p = w := by
+          rw [nodeVal_eq x.nodes x.env p hps s0 hty, hw]
+          simp
+        rw [get_sumOuts_single, hv, get_single]
+        by_cases hs : s0 = s
+        · subst hs
+          rw [if_pos rfl, hh, hnv]
+        · rw [if_neg hs]
+          apply x.emits
+          unfold Kind.emitsOnly at hemit
+          unfold Kind.mayEmitB
+          cases hl : (x.c.kind e).emitList with
+          | none => rw [hl] at hemit; simp at hemit
+          | some l =>
+            rw [hl] at hemit
+            simp only [List.all_eq_true, beq_iff_eq] at hemit
+            simp only [List.contains_eq_mem, decide_eq_false_iff_not]
+            intro hm
+            exact hs (hemit s hm).symm
+      · rw [if_neg hc] at h
+        cases h
+
+theorem partsEnts_sound (x : Ctx) (n : Nat) (hn : n ≤ x.nodes.size)
+    (ih : ∀ m, m < n → Holds x.E x.nodes x.env x.bind m) :
+    ∀ (parts : List Nat) (es : List Nat), partsEnts x.c x.nodes x.bind n parts = some es → ∀ s,
+      get (Circuit.sumOuts es x.E) s =
+        get ((parts.map (fun p => (evalUpTo x.nodes x.env n).getD p [])).flatten) s := by
+  intro parts
+  induction parts with
+  | nil =>
+    intro es h s
+    simp only [partsEnts] at h
+    injection h with h
+    subst h
+    rfl
+  | cons p ps ihp =>
+    intro es h s
+    simp only [partsEnts] at h
+    split at h
+    · rename_i hp
+      cases h1 : partEnts x.c x.nodes x.bind p with
+      | none => simp [h1] at h
+      | some a =>
+        cases h2 : partsEnts x.c x.nodes x.bind n ps with
+        | none => simp [h1, h2] at h
+        | some b =>
+          simp only [h1, h2] at h
+          injection h with h
+          subst h
+          simp only [List.map_cons, List.flatten_cons, get_append, get_sumOuts_append]
+          rw [partEnts_sound x n p hp hn ih a h1 s, ihp b h2 s, evalUpTo_prefix x.nodes x.env n p hp hn]
+    · cases h
+
+theorem checkMany_sound (x : Ctx) (n : Nat) (hn : n < x.nodes.size) (es : List Nat)
+    (hbind : x.bind n = some (.many es))
+    (ih : ∀ m, m < n → Holds x.E x.nodes x.env x.bind m)
+    (h : checkMany x.c x.nodes x.bind n x.nodes[n] es = true) : Holds x.E x.nodes x.env x.bind n := by
+  unfold Holds
+  rw [hbind]
+  show ∀ s, get (Circuit.sumOuts es x.E) s = get ((evalNodes x.nodes x.env).getD n []) s
+  intro s
+  rw [evalNodes_getD x.nodes x.env n hn]
+  unfold checkMany at h
+  cases hk : x.nodes[n] with
+  | bmerge parts =>
+    rw [hk] at h
+    simp only at h
+    cases hp : partsEnts x.c x.nodes x.bind n parts with
+    | none => simp [hp] at h
+    | some es' =>
+      simp only [hp] at h
+      rw [← get_sumOuts_perm x.E s (List.isPerm_iff.mp h), partsEnts_sound x n (by omega) ih parts es' hp s]
+      simp [evalNode]
+  | beach op b k =>
+    rw [hk] at h
+    simp only [Bool.and_eq_true, decide_eq_true_eq] at h
+    obtain ⟨⟨hb, hkb⟩, hm⟩ := h
+    have hhb := ih b hb
+    unfold Holds at hhb
+    match es, hm with
+    | [e], hm =>
+      cases hbb : x.bind b with
+      | none => simp [hbb] at hm
+      | some bb =>
+        cases bb with
+        | many eb =>
+          rw [hbb] at hhb
+          simp only [hbb] at hm
+          cases hkind : x.c.kind e with
+          | arith cfg =>
+            simp only [hkind, Bool.and_eq_true, beq_iff_eq] at hm
+            obtain ⟨⟨⟨⟨hop, hfirst⟩, hout⟩, hplain⟩, hmo⟩ := hm
+            cases hf : cfg.first with
+            | const v => rw [hf] at hfirst; simp at hfirst
+            | ref rf sel =>
+              cases rf with
+              | each =>
+                rw [hf] at hfirst
+                simp only at hfirst
+                have ho : cfg.out = some .each := by
+                  cases hco : cfg.out with
+                  | none => rw [hco] at hout; simp at hout
+                  | some r => cases r <;> simp_all
+                rw [get_sumOuts_single, x.out_eq e (x.inp_none_of_arith e cfg hkind), hkind]
+                show get (evalArith cfg _ _) s = _
+                rw [get_evalArith_each cfg sel hf ho, get_evalNode_beach,
+                  carries_sound x.c x.E x.emits e sel eb hfirst s, hhb s,
+                  matchOperand_sound x e cfg.second k n hkb ih hmo, hop,
+                  evalUpTo_prefix x.nodes x.env n b hb (by omega), argVal_prefix x.nodes x.env n (by omega) k hkb]
+                rfl
+              | _ => rw [hf] at hfirst; simp at hfirst
+          | _ => simp [hkind] at hm
+        | _ => simp [hbb] at hm
+    | [], hm => simp at hm
+    | _ :: _ :: _, hm => simp at hm
+  | bfilter op b k out =>
+    rw [hk] at h
+    simp only [Bool.and_eq_true, decide_eq_true_eq] at h
+    obtain ⟨⟨hb, hkb⟩, hm⟩ := h
+    have hhb := ih b hb
+    unfold Holds at hhb
+    match es, hm with
+    | [e], hm =>
+      cases hbb : x.bind b with
+      | none => simp [hbb] at hm
+      | some bb =>
+        cases bb with
+        | many eb =>
+          rw [hbb] at hhb
+          simp only [hbb] at hm
+          cases hkind : x.c.kind e with
+          | decider cfg =>
+            simp only [hkind] at hm
+            obtain ⟨cd, o, hcs, hos, hP⟩ := decider_shape cfg.conds cfg.outs _ hm
+            simp only [Bool.and_eq_true, beq_iff_eq] at hP
+            obtain ⟨⟨⟨⟨⟨hop, hfirst⟩, hplain⟩, hmo⟩, hsig⟩, hov⟩ := hP
+            have hcfg : cfg = { conds := [cd], outs := [o] } := by cases cfg; simp_all
+            have hosig : o.sig = .each := by cases hs : o.sig <;> simp_all
+            cases hf : cd.first with
+            | const v => rw [hf] at hfirst; simp at hfirst
+            | ref rf sel =>
+              cases rf with
+              | each =>
+                rw [hf] at hfirst
+                simp only at hfirst
+                rw [get_sumOuts_single, x.out_eq e (x.inp_none_of_decider e cfg hkind), hkind, hcfg]
+                show get (evalDecider _ _ _) s = _
+                rw [get_evalDecider_each1 cd o sel hf hplain hosig, get_evalNode_bfilter,
+                  carries_sound x.c x.E x.emits e sel eb hfirst s, hhb s,
+                  matchOperand_sound x e cd.second k n hkb ih hmo, hop,
+                  evalUpTo_prefix x.nodes x.env n b hb (by omega), argVal_prefix x.nodes x.env n (by omega) k hkb]
+                cases out with
+                | none =>
+                  simp only [Bool.and_eq_true] at hov
+                  rw [hov.1, if_pos rfl, carries_sound x.c x.E x.emits e o.sel eb hov.2 s, hhb s]
+                  rfl
+                | some c =>
+                  simp only [Bool.and_eq_true, Bool.not_eq_true', beq_iff_eq] at hov
+                  rw [hov.1, hov.2]
+                  rfl
+              | _ => rw [hf] at hfirst; simp at hfirst
+          | _ => simp [hkind] at hm
+        | _ => simp [hbb] at hm
+    | [], hm => simp at hm
+    | _ :: _ :: _, hm => simp at hm
+  | bgate op a k b =>
+    rw [hk] at h
+    simp only [Bool.and_eq_true, decide_eq_true_eq] at h
+    obtain ⟨⟨⟨hb, hab⟩, hkb⟩, hm⟩ := h
+    have hhb := ih b hb
+    unfold Holds at hhb
+    match es, hm with
+    | [e], hm =>
+      cases hbb : x.bind b with
+      | none => simp [hbb] at hm
+      | some bb =>
+        cases bb with
+        | many eb =>
+          rw [hbb] at hhb
+          simp only [hbb] at hm
+          cases hkind : x.c.kind e with
+          | decider cfg =>
+            simp only [hkind] at hm
+            obtain ⟨cd, o, hcs, hos, hP⟩ := decider_shape cfg.conds cfg.outs _ hm
+            simp only [Bool.and_eq_true, Bool.not_eq_true', beq_iff_eq] at hP
+            obtain ⟨⟨⟨⟨⟨⟨⟨hue, hop⟩, hplain⟩, hm1⟩, hm2⟩, hsig⟩, hcopy⟩, hcar⟩ := hP
+            have hcfg : cfg = { conds := [cd], outs := [o] } := by cases cfg; simp_all
+            have hosig : o.sig = .everything := by cases hs : o.sig <;> simp_all
+            rw [get_sumOuts_single, x.out_eq e (x.inp_none_of_decider e cfg hkind), hkind, hcfg]
+            show get (evalDecider _ _ _) s = _
+            refine rule_bundle_gate x.nodes x.env (evalUpTo x.nodes x.env n) cd o op a k b _ _ hue hosig hcopy ?_ ?_ s
+            · rw [cond_eval_plain cd _ _ hplain hue, matchOperand_sound x e cd.first a n hab ih hm1,
+                matchOperand_sound x e cd.second k n hkb ih hm2, hop,
+                argVal_prefix x.nodes x.env n (by omega) a hab, argVal_prefix x.nodes x.env n (by omega) k hkb]
+              rfl
+            · intro t
+              rw [carries_sound x.c x.E x.emits e o.sel eb hcar t, hhb t, evalUpTo_prefix x.nodes x.env n b hb (by omega)]
+          | _ => simp [hkind] at hm
+        | _ => simp [hbb] at hm
+    | [], hm => simp at hm
+    | _ :: _ :: _, hm => simp at hm
+  | _ => rw [hk] at h; simp at h
+
 /-! ## the per-node theorem and its closure over the program -/
 
 theorem sound_input (x : Ctx) (n e : Nat) (s : Sig) (name ty : Sig) (v : I32)
@@ -1151,10 +1785,26 @@ theorem checkNode_sound (x : Ctx) (n : Nat) (hn : n < x.nodes.size)
             subst ht; subst hv
             exact sound_const_ent x n e t ty v hnd hb hkind
         | _ => rw [hkind] at h; simp at h
+      | anyCmp b op rhs out ty =>
+        rw [hk] at h
+        simp only [checkEnt] at h
+        exact sound_anyCmp x n e s hn b op rhs out ty hk hb ih h
+      | allCmp b op rhs out ty =>
+        rw [hk] at h
+        simp only [checkEnt] at h
+        exact sound_allCmp x n e s hn b op rhs out ty hk hb ih h
       | _ =>
         rw [hk] at h
         simp only [checkEnt] at h
         exact sound_lowered x n e s hn hb ih h
+    | sum es s =>
+      rw [hb] at h
+      simp only at h
+      exact checkSum_sound x n hn es s hb ih h
+    | many es =>
+      rw [hb] at h
+      simp only at h
+      exact checkMany_sound x n hn es hb ih h
 
 /-- **Matcher soundness.** If every node passes, every bound node reads its denotation in `E`. -/
 theorem checkAll_sound (x : Ctx) (h : checkAll x.c x.nodes x.bind = true) :
@@ -1168,6 +1818,13 @@ theorem checkAll_sound (x : Ctx) (h : checkAll x.c x.nodes x.bind = true) :
     have hc := h n (List.mem_range.mpr hn)
     exact checkNode_sound x n hn (fun m hm => ih m hm (by omega)) hc
 
+/-- the settled state of a ranked circuit, as a matcher context -/
+def settledCtx (c : Circuit) (nodes : Array CNode) (bind : Nat → Option Bind) (rank : Nat → Nat)
+    (hrank : c.checkRanked rank = true) (inp : Inputs) (env : Env) (hinp : InputsOK c inp)
+    (hagree : InputsAgree nodes bind inp env) (T : Nat) (hT : ∀ i, rank i < T) : Ctx :=
+  { c, inp, E := c.runF inp T, nodes, env, bind,
+    hfix := Circuit.settled_fixpoint c inp rank (Circuit.checkRanked_sound c rank hrank) T hT, hinp, hagree }
+
 /-- **C01, per program.** For a circuit with a rank certificate (M1) whose Core nodes all pass the matcher,
 and for *every* valuation of the declared inputs (`inp` on the circuit side, `env` on the source side,
 related by `InputsAgree`): from tick `T` on (any `T` above every rank), each bound node's entity carries,
@@ -1180,11 +1837,49 @@ theorem scalar_end_to_end (c : Circuit) (nodes : Array CNode) (bind : Nat → Op
     get (c.runF inp t e) s = nodeVal nodes env n := by
   have hr := Circuit.checkRanked_sound c rank hrank
   rw [Circuit.settled_stable c inp rank hr T hT t ht e]
-  let x : Ctx := { c, inp, E := c.runF inp T, nodes, env, bind,
-                   hfix := Circuit.settled_fixpoint c inp rank hr T hT, hinp, hagree }
+  let x := settledCtx c nodes bind rank hrank inp env hinp hagree T hT
   have := checkAll_sound x hall n hn
   unfold Holds at this
   have hb' : x.bind n = some (.ent e s) := hb
+  rw [hb'] at this
+  exact this
+
+theorem sumOuts_congr (es : List Nat) (E1 E2 : Nat → SigMap) (h : ∀ e, E1 e = E2 e) :
+    Circuit.sumOuts es E1 = Circuit.sumOuts es E2 := by
+  have : E1 = E2 := funext h
+  rw [this]
+
+/-- **C02, per program.** Same hypotheses; a bundle node bound to the producers `es`: from tick `T` on, the
+wire-sum of their outputs is, signal by signal, the bundle the source denotes — no member missing, none
+foreign, each with its own value. -/
+theorem bundle_end_to_end (c : Circuit) (nodes : Array CNode) (bind : Nat → Option Bind) (rank : Nat → Nat)
+    (hrank : c.checkRanked rank = true) (hall : checkAll c nodes bind = true)
+    (inp : Inputs) (env : Env) (hinp : InputsOK c inp) (hagree : InputsAgree nodes bind inp env)
+    (T : Nat) (hT : ∀ i, rank i < T) (t : Nat) (ht : T ≤ t)
+    (n : Nat) (es : List Nat) (hn : n < nodes.size) (hb : bind n = some (.many es)) (s : Sig) :
+    get (Circuit.sumOuts es (c.runF inp t)) s = get ((evalNodes nodes env).getD n []) s := by
+  have hr := Circuit.checkRanked_sound c rank hrank
+  rw [sumOuts_congr es _ _ (fun e => Circuit.settled_stable c inp rank hr T hT t ht e)]
+  let x := settledCtx c nodes bind rank hrank inp env hinp hagree T hT
+  have := checkAll_sound x hall n hn
+  unfold Holds at this
+  have hb' : x.bind n = some (.many es) := hb
+  rw [hb'] at this
+  exact this s
+
+/-- a scalar that exists only on the wires (bundle selection, addition folded into a wire merge) -/
+theorem wiresum_end_to_end (c : Circuit) (nodes : Array CNode) (bind : Nat → Option Bind) (rank : Nat → Nat)
+    (hrank : c.checkRanked rank = true) (hall : checkAll c nodes bind = true)
+    (inp : Inputs) (env : Env) (hinp : InputsOK c inp) (hagree : InputsAgree nodes bind inp env)
+    (T : Nat) (hT : ∀ i, rank i < T) (t : Nat) (ht : T ≤ t)
+    (n : Nat) (es : List Nat) (s : Sig) (hn : n < nodes.size) (hb : bind n = some (.sum es s)) :
+    get (Circuit.sumOuts es (c.runF inp t)) s = nodeVal nodes env n := by
+  have hr := Circuit.checkRanked_sound c rank hrank
+  rw [sumOuts_congr es _ _ (fun e => Circuit.settled_stable c inp rank hr T hT t ht e)]
+  let x := settledCtx c nodes bind rank hrank inp env hinp hagree T hT
+  have := checkAll_sound x hall n hn
+  unfold Holds at this
+  have hb' : x.bind n = some (.sum es s) := hb
   rw [hb'] at this
   exact this
 
